@@ -37,6 +37,7 @@ structure ExprOK (m : ExprMap) : Prop where
   notCall : ∀ e, asNameCall e = none → asNameCall (m.e e) = none
   notName : ∀ e, nameOf e = none → nameOf (m.e e) = none
   params : ∀ a, paramNames (m.args a) = paramNames a
+  handlerTy : ∀ ty, excKind (mapO m.e ty) = excKind ty
 
 theorem evalArgs_map (m : ExprMap) (h : ExprOK m) (s : St) : ∀ args : List Expr,
     evalArgs s args ≠ none → evalArgs s (args.map m.e) = evalArgs s args
@@ -335,13 +336,72 @@ theorem execL_cons_le (ft ft' : FTab) (n : Nat) (s : St) (st st' : Stmt) (rest r
 theorem flat_le (m : ExprMap) (h : ExprOK m) (ft : FTab) (n : Nat) (ih : ∀ k, k < n → GoodM m ft k)
     (s : St) (st : Stmt) (hst : isBlockStmt st = false) :
     Res.le (exec1 ft n s st) (exec1 (mapFT m ft) n s (mapStmt m st)) := by
-  have hst' : isBlockStmt (mapStmt m st) = false := by cases st <;> first | rfl | simp [isBlockStmt] at hst
+  have hst' : isBlockStmt (mapStmt m st) = false := by
+    cases st
+    case try_ star _ _ _ _ => cases star <;> first | rfl | simp [isBlockStmt] at hst
+    all_goals first | rfl | simp [isBlockStmt] at hst
   rw [exec1_flat _ _ _ _ hst, exec1_flat _ _ _ _ hst']
   unfold flatExec
   rw [callOf_map m h st]
   cases callOf st with
   | none => exact simpleExec_le m h s st
   | some p => obtain ⟨f, args, tgt⟩ := p; exact callFn_le m h ft n ih s f args tgt
+
+def isTuple : Expr → Bool
+  | .tuple _ => true
+  | _ => false
+
+theorem nameList_map (f : Expr → Expr) (hn : ∀ e, nameOf (f e) = nameOf e) : ∀ es : List Expr, nameList (es.map f) = nameList es
+  | [] => rfl
+  | e :: es => by simp [nameList, hn e, nameList_map f hn es]
+
+/-- a rewrite that keeps names, maps tuples elementwise and never makes a tuple keeps every handler's exception pattern -/
+theorem excKind_map (f : Expr → Expr) (hn : ∀ e, nameOf (f e) = nameOf e)
+    (ht : ∀ es, f (.tuple es) = .tuple (es.map f)) (hnt : ∀ e, isTuple e = false → isTuple (f e) = false)
+    (ty : Option Expr) : excKind (mapO f ty) = excKind ty := by
+  cases ty with
+  | none => rfl
+  | some e =>
+    simp only [mapO]
+    by_cases he : isTuple e = true
+    · cases e <;> simp [isTuple] at he
+      rename_i es
+      rw [ht]
+      simp [excKind, nameList_map f hn es]
+    · have he' : isTuple e = false := by simpa using he
+      have hfe := hnt e he'
+      have key : ∀ x : Expr, isTuple x = false → excKind (some x) = (match nameOf x with | some (n, _) => ExcPat.names [n] | none => ExcPat.unknown) := by
+        intro x hx
+        cases x <;> first | rfl | simp [isTuple] at hx
+      rw [key e he', key (f e) hfe, hn e]
+
+theorem afterBody_le (r0 r0' : Res Flow) (e e' : St → Res Flow) (hd hd' : String → St → Res Flow)
+    (h0 : Res.le r0 r0') (he : ∀ s, Res.le (e s) (e' s)) (hh : ∀ x s, Res.le (hd x s) (hd' x s)) :
+    Res.le (afterBody r0 e hd) (afterBody r0' e' hd') := by
+  rcases h0 with h0 | h0
+  · left; rw [h0]; rfl
+  · rw [h0]
+    cases r0 with
+    | ok fl =>
+      cases fl with
+      | normal s1 => exact he s1
+      | _ => right; rfl
+    | raised x s1 => exact hh x s1
+    | _ => right; rfl
+
+theorem withFinally_le (r1 r1' : Res Flow) (f f' : St → Res Flow)
+    (h1 : Res.le r1 r1') (hf : ∀ s, Res.le (f s) (f' s)) :
+    Res.le (withFinally r1 f) (withFinally r1' f') := by
+  rcases h1 with h1 | h1
+  · left; rw [h1]; rfl
+  · rw [h1]
+    unfold withFinally
+    cases stateOf? r1 with
+    | none => right; rfl
+    | some s1 =>
+      rcases hf s1 with hs | hs
+      · left; simp only [hs]
+      · right; simp only [hs]
 
 mutual
 theorem exec1_le (m : ExprMap) (h : ExprOK m) (ft : FTab) (n : Nat) (ih : ∀ k, k < n → GoodM m ft k) :
@@ -406,7 +466,16 @@ theorem exec1_le (m : ExprMap) (h : ExprOK m) (ft : FTab) (n : Nat) (ih : ∀ k,
   | .classDef .., s => flat_le m h ft n ih s _ rfl
   | .for_ .., s => flat_le m h ft n ih s _ rfl
   | .with_ .., s => flat_le m h ft n ih s _ rfl
-  | .try_ .., s => flat_le m h ft n ih s _ rfl
+  | .try_ true .., s => flat_le m h ft n ih s _ rfl
+  | .try_ false body hs orelse fin, s => by
+    simp only [mapStmt]
+    rw [exec1.eq_4, exec1.eq_4]
+    apply withFinally_le
+    · apply afterBody_le
+      · exact execL_le m h ft n ih body s
+      · intro s1; exact execL_le m h ft n ih orelse s1
+      · intro x s1; exact execH_le m h ft n ih hs s1 x
+    · intro s1; exact execL_le m h ft n ih fin s1
   | .match_ .., s => flat_le m h ft n ih s _ rfl
   | .return_ _, s => flat_le m h ft n ih s _ rfl
   | .delete _, s => flat_le m h ft n ih s _ rfl
@@ -424,6 +493,19 @@ theorem exec1_le (m : ExprMap) (h : ExprOK m) (ft : FTab) (n : Nat) (ih : ∀ k,
   | .pass, s => flat_le m h ft n ih s _ rfl
   | .break_, s => flat_le m h ft n ih s _ rfl
   | .continue_, s => flat_le m h ft n ih s _ rfl
+theorem execH_le (m : ExprMap) (h : ExprOK m) (ft : FTab) (n : Nat) (ih : ∀ k, k < n → GoodM m ft k) :
+    (hs : List Handler) → (s : St) → (x : String) →
+      Res.le (execH ft n s x hs) (execH (mapFT m ft) n s x (mapHandlers m hs))
+  | [], s, x => by simp only [mapHandlers]; rw [execH.eq_1, execH.eq_1]; exact Res.le_refl _
+  | .mk ty nm hbody :: rest, s, x => by
+    simp only [mapHandlers]
+    rw [execH.eq_2, execH.eq_2, h.handlerTy ty]
+    cases catches (excKind ty) nm x with
+    | none => left; rfl
+    | some b =>
+      cases b with
+      | true => exact execL_le m h ft n ih hbody s
+      | false => exact execH_le m h ft n ih rest s x
 theorem execL_le (m : ExprMap) (h : ExprOK m) (ft : FTab) (n : Nat) (ih : ∀ k, k < n → GoodM m ft k) :
     (l : List Stmt) → (s : St) → Res.le (execL ft n s l) (execL (mapFT m ft) n s (mapBody m l))
   | [], s => by simp only [mapBody, execL_nil]; exact Res.le_refl _
